@@ -197,7 +197,8 @@ func chooseWorld0(t *tape.Tape) world {
 		seed := t.Raw()
 		kind := simgen.Kind(t.Draw(3))
 		layout := t.Chance(2, 3)
-		return world{"generated-" + kind.String(), func() *sfnt.Font {
+		bigKern := t.Chance(1, 3)
+		return world{"generated-" + kind.String() + map[bool]string{true: "+kerning", false: ""}[bigKern], func() *sfnt.Font {
 			tt := tape.New(seed)
 			f := simgen.GenFont(tt, kind, 1)
 			if f.CMapTable == nil {
@@ -211,6 +212,11 @@ func chooseWorld0(t *tape.Tape) world {
 			}
 			if layout {
 				simgen.AddLayoutTables(tt, f)
+			}
+			if bigKern && f.NumGlyphs() > 12 {
+				// a pair adjustment subtable of several KiB (the size
+				// of real kerning data; generated lookups are tiny)
+				f.Gpos = simgen.MidGpos(tt, f.NumGlyphs())
 			}
 			return f
 		}, !layout}
@@ -301,6 +307,10 @@ func run(c *wk.Case) {
 	c.Count("tasks", n)
 	c.Count("task_switches", st.Switches)
 	c.Count("yields_because_blocked_on_a_lock", st.BlockedYields)
+	c.Count("switches_before_a_synchronisation_operation", st.SyncYields)
+	if st.SyncOnly {
+		c.Count("cases_in_sync-only_mode", 1)
+	}
 	c.Count("blocks_on_virtual_channels_or_waitgroups", st.ChanBlocks)
 	c.Count("library_goroutines_left_waiting_(not_judged)", st.LeftBlocked)
 	c.Count("goroutines_started_by_the_library_(scheduled_as_tasks)", st.Spawned)
